@@ -16,7 +16,7 @@ func namePool() []tname {
 	}
 	for _, s := range []string{"a", "A", "b", "B", "a::b", "A::a", "a::a::b", "Integer", "integer", "INTEGER", "String", "Car", "car", "CAR", "Bus", "Zed",
 		"Foo", "Foo::Car", "foo::car", "FOO::CAR", "Foo::Nope", "foo::foo::bus", "Foo::Bar", "Foo::Bar::Car", "foo::bar::a", "Foo::Bar::Nope",
-		"Foo::Bar::Foo::Bar::Car", "Nope", "MyAlias", "myalias", "::Car", "Foo::a", "Foo::A::B"} {
+		"Foo::Bar::Foo::Bar::Car", "Nope", "MyAlias", "myalias", "MYALIAS", "Late", "late", "::Car", "Foo::a", "Foo::A::B"} {
 		ns = append(ns, tn("type", s))
 	}
 	ns = append(ns, addNames()...)
@@ -155,6 +155,22 @@ func (r *runner) corpus() {
 			load(2, tn("type", "B")), load(2, tn("type", "Car")), addTypes(2, 2), load(2, tn("type", "A::B")), load(2, tn("type", "B")), fork(2), load(4, tn("type", "B"))),
 		seq(newDep(), newParented(1), newTypeSet(2, 0), addTypes(3, 8), load(3, tn("type", "Keeper")), load(3, tn("type", "Car")), load(3, tn("type", "Zoo::Cage")), addTypes(3, 11),
 			load(3, tn("type", "Zed")), load(3, tn("type", "Broken")), addTypes(3, 10), load(3, tn("type", "Zoo::Cage")), getEntry(2, tn("type", "Zoo::Cage")), discover(3, allPred())),
+		// the declaration route (seeded change C12-m7: a declaration of a bound name was skipped): first declaration, equal value,
+		// another letter case (alias types compare their names: a different value), different value; the verdicts of SetEntry and
+		// px.AddTypes for the same history; several declarations at once, the rejected one in the middle; after a miss; a binding of
+		// the parent / of the loader itself made by the other routes; through a type-set loader's context
+		cat(chain, declare(2, 11), load(3, tn("type", "myalias")), declare(2, 13), declare(2, 11), declare(2, 14), load(3, tn("type", "MyAlias")), declare(2, 15),
+			getEntry(2, tn("type", "MyAlias")), declare(3, 14), getEntry(3, tn("type", "MyAlias")), load(3, tn("type", "MyAlias")), declare(3, 15), declare(3, 14)),
+		cat(chain, def(2, tn("type", "MyAlias"), 11), declare(2, 13), declare(2, 14), load(2, tn("type", "MyAlias")), addType(2, 14), def(2, tn("type", "myalias"), 14)),
+		cat(chain, addType(2, 11), declare(2, 14), declare(2, 13), addType(2, 13), load(2, tn("type", "MyAlias")), discover(2, allPred())),
+		cat(chain, declare(2, 11), def(2, tn("type", "MyAlias"), 14), addType(2, 14), def(2, tn("type", "MYALIAS"), 13), addType(2, 13), load(2, tn("type", "MyAlias"))),
+		cat(chain, load(2, tn("type", "Late")), load(3, tn("type", "late")), declare(2, 18), load(2, tn("type", "Late")), load(3, tn("type", "late")), has(3, tn("type", "LATE")), declare(2, 19), declare(2, 20)),
+		cat(chain, declare(2, 11), declare(2, 18, 14, 12), load(2, tn("type", "Late")), load(2, tn("type", "Foo::Car")), load(2, tn("type", "MyAlias")), declare(2, 12, 19, 13), load(2, tn("type", "Foo::Car")),
+			declare(2, 16, 17), discover(2, nsPred("type"))),
+		cat(chain, def(1, tn("type", "MyAlias"), 14), declare(2, 11), getEntry(2, tn("type", "MyAlias")), load(2, tn("type", "MyAlias")), declare(2, 14), declare(1, 11), declare(1, 14)),
+		seq(newDep(), newParented(1), newTypeSet(2, 0), declare(3, 12), load(3, tn("type", "Foo::Car")), load(3, tn("type", "Car")), getEntry(2, tn("type", "Foo::Car")), declare(3, 17), declare(3, 16),
+			declare(2, 17), declare(3, 11, 14), load(3, tn("type", "MyAlias")), declare(9, 11)),
+		seq(newParented(0), fork(1), declare(2, 11), load(2, tn("type", "MyAlias")), declare(1, 14), load(2, tn("type", "MyAlias")), getEntry(2, tn("type", "MyAlias")), declare(2, 14), declare(1, 11)),
 		// load-entry / get-entry distinguish an absent entry from a cached miss; both are misses
 		cat(chain, loadEntry(3, a), getEntry(3, a), load(3, a), getEntry(3, a), loadEntry(3, a), getEntry(1, a), getEntry(2, a)),
 	}
@@ -176,32 +192,38 @@ type shape struct {
 	adds    [][]int // AddTypes argument lists of the alphabet
 	loadAll bool    // the observers load every name through every loader (not only the innermost)
 	forks   []int   // the alphabet holds a Fork of these loaders followed by a Load of every name through the fork
+	decls   [][]int // Declare argument lists (values of the table) of the alphabet
 }
 
 func shapes() []shape {
 	return []shape{
 		{"fresh-chain", 0, true, seq(newDep(), newParented(1), newParented(2)), []int{1, 2, 3}, []tname{tn("x", "a"), tn("x", "A"), tn("x", "b")}, []int{0, 1},
-			[]predT{allPred()}, nil, false, nil},
+			[]predT{allPred()}, nil, false, nil, nil},
 		{"static-chain", 1, true, seq(newParented(0), fork(1)), []int{1, 2}, []tname{tn("type", "Integer"), tn("type", "integer"), tn("x", "a")}, []int{8, 10},
-			[]predT{nsPred("x"), nameLower("integer")}, nil, false, nil},
+			[]predT{nsPred("x"), nameLower("integer")}, nil, false, nil, nil},
 		{"typeset-leaf", 0, true, seq(newDep(), newParented(1), newTypeSet(2, 0)), []int{2, 3}, []tname{tn("type", "Car"), tn("type", "foo::car"), tn("type", "Foo::Nope"), tn("type", "nope")},
-			[]int{8, 10}, []predT{allPred()}, nil, false, nil},
+			[]int{8, 10}, []predT{allPred()}, nil, false, nil, nil},
 		{"typeset-inner", 0, false, seq(newDep(), newTypeSet(1, 0), newParented(2)), []int{1, 2, 3}, []tname{tn("type", "car"), tn("type", "Foo::Car"), tn("type", "b")}, []int{4, 5},
-			[]predT{allPred()}, nil, false, nil},
+			[]predT{allPred()}, nil, false, nil, nil},
 		{"eq-values", 0, false, seq(newDep(), newParented(1)), []int{1, 2}, []tname{tn("x", "a"), tn("type", "A")}, []int{4, 5, 6, 8, 9},
-			[]predT{allPred()}, nil, false, nil},
+			[]predT{allPred()}, nil, false, nil, nil},
 		// px.AddTypes of a type set (members, object member with constructor) and of an object type, between lookups and
 		// definitions of the names they bind
 		{"addtypes-chain", 0, false, seq(newDep(), newParented(1), newParented(2)), []int{2, 3},
-			[]tname{tn("type", "Foo::Bus"), tn("constructor", "foo::bus"), tn("type", "Foo")}, []int{10}, []predT{allPred()}, [][]int{{0}, {6}, {4}}, false, nil},
+			[]tname{tn("type", "Foo::Bus"), tn("constructor", "foo::bus"), tn("type", "Foo")}, []int{10}, []predT{allPred()}, [][]int{{0}, {6}, {4}}, false, nil, nil},
 		{"addtypes-nested", 1, true, seq(newDep(), newParented(1), newTypeSet(2, 2)), []int{2, 3},
-			[]tname{tn("type", "A::Sub::X"), tn("type", "A::Sub"), tn("constructor", "A::Sub::X"), tn("type", "A::B"), tn("type", "Sub::X")}, []int{8}, []predT{allPred()}, [][]int{{2}, {2, 5}}, false, nil},
+			[]tname{tn("type", "A::Sub::X"), tn("type", "A::Sub"), tn("constructor", "A::Sub::X"), tn("type", "A::B"), tn("type", "Sub::X")}, []int{8}, []predT{allPred()}, [][]int{{2}, {2, 5}}, false, nil, nil},
 		// px.AddTypes that is rejected (a member of the set cannot be resolved; nested), the good set of the same name, lookups and
 		// definitions of the members' names - unqualified too - through the same contexts and through forks made afterwards
 		{"addtypes-rejected", 0, false, seq(newDep(), newParented(1), fork(2)), []int{2, 3},
-			[]tname{tn("type", "Cage"), tn("type", "Zoo::Keeper")}, []int{11}, []predT{allPred()}, [][]int{{8}, {10}}, true, []int{3}},
+			[]tname{tn("type", "Cage"), tn("type", "Zoo::Keeper")}, []int{11}, []predT{allPred()}, [][]int{{8}, {10}}, true, []int{3}, nil},
 		{"addtypes-rejected-mixed", 1, true, seq(newDep(), newParented(1), newTypeSet(2, 0)), []int{2, 3},
-			[]tname{tn("type", "Zed"), tn("type", "Foo::Bus"), tn("type", "Bus")}, []int{10}, []predT{allPred()}, [][]int{{11}, {0}, {5, 11}, {12}}, true, []int{2, 3}},
+			[]tname{tn("type", "Zed"), tn("type", "Foo::Bus"), tn("type", "Bus")}, []int{10}, []predT{allPred()}, [][]int{{11}, {0}, {5, 11}, {12}}, true, []int{2, 3}, nil},
+		// the declaration route between lookups and definitions (SetEntry, px.AddTypes of the same alias types) of the names it
+		// binds: equal and different values, the name in another letter case, two declarations at once
+		{"declare-chain", 0, false, seq(newDep(), newParented(1), newParented(2)), []int{2, 3},
+			[]tname{tn("type", "MyAlias"), tn("type", "late")}, []int{14}, []predT{allPred()}, [][]int{{100 + 13}}, true, nil,
+			[][]int{{11}, {14}, {15}, {18, 14}}},
 	}
 }
 
@@ -218,6 +240,9 @@ func (s shape) alphabet() []opT {
 		}
 		for _, a := range s.adds {
 			al = append(al, addTypes(l, a...))
+		}
+		for _, d := range s.decls {
+			al = append(al, declare(l, d...))
 		}
 	}
 	for _, l := range s.forks {
@@ -324,8 +349,8 @@ func randomHistory(r *lib.Rng, n int) []opT {
 	target := []int{0}     // the loader that receives definitions made through loader l (type-set loaders define into their parent)
 	static := []bool{true} // rooted at the static loader: Discover predicates are kept selective (167 core entries)
 	// a few hot names so that histories revisit the same entries
-	vals := []int{0, 1, 2, 3, 4, 5, 6, 7, 8, 9, 10, 11, 12}
-	aliasVals := []int{8, 10, 11, 12}
+	vals := []int{0, 1, 2, 3, 4, 5, 6, 7, 8, 9, 10, 11, 12, 14, 18}
+	aliasVals := []int{8, 10, 11, 12, 13, 14, 18}
 	hot := []tname{}
 	// one history in three revolves around the names px.AddTypes binds
 	focus := r.Chance(1, 3)
@@ -406,6 +431,17 @@ func randomHistory(r *lib.Rng, n int) []opT {
 			ops = append(ops, addType(l, aliasVals[r.Intn(len(aliasVals))]))
 		case x < 40 && !focus, x < 46:
 			ops = append(ops, addTypes(l, addItems()...))
+		case x < 47 && !focus, x < 50:
+			// declarations: mostly one, the names of the alias values recur (MyAlias, Foo::Car, Late in two letter cases)
+			k := 1
+			if r.Chance(1, 4) {
+				k = 2 + r.Intn(2)
+			}
+			ds := make([]int, k)
+			for i := range ds {
+				ds[i] = declVals[r.Intn(len(declVals))]
+			}
+			ops = append(ops, declare(l, ds...))
 		case x < 62:
 			ops = append(ops, load(l, pick()))
 		case x < 70:
